@@ -732,7 +732,7 @@ type storeCfg struct {
 var quiet = logger.NewMemoryLoggerWithLevel(logger.LogError)
 
 func (s storeCfg) opts(clock *int64) *store.Options {
-	o := store.DefaultOptions().WithSynced(false).WithFileSize(s.fileSize).WithEmbeddedValues(s.embedded).
+	o := store.DefaultOptions().WithAHTOptions(store.DefaultAHTOptions().WithWriteBufferSize(1<<16)).WithWriteBufferSize(1<<16).WithSynced(false).WithFileSize(s.fileSize).WithEmbeddedValues(s.embedded).
 		WithWriteTxHeaderVersion(s.version).WithMaxTxEntries(s.maxTxEnt).WithMaxConcurrency(4).WithMaxActiveTransactions(16).
 		WithCompressionFormat(s.compression).WithLogger(quiet)
 	o.WithIndexOptions(o.IndexOpts.WithMaxActiveSnapshots(8))
